@@ -32,6 +32,9 @@ CHECKS = {
     'C06': dict(cat='proof', tech='Coq proof on a hand model of the byte format + byte-exact correspondence', ref='DESIGN.md section 6, C06',
                 text='Theorems (BinIOProofs.v) for every stack of the layer grammar and every well-formed field, all bit patterns: the reader inverts the writer with any bytes following (load_dump), re-dumping the loaded field gives the same bytes (dump_load_dump), every well-formed field is serialisable (dump_total). The model writer/reader (BinIO.v) is tied to field::dump / field(std::istream&) and every layer\'s read_binary / write_binary byte for byte: for each stack of the catalogue (every serialisable layer in several positions + seeded random stacks) the implementation\'s dump must equal the model\'s bytes, its load must yield the model\'s configuration and storage, and its second dump the same bytes.',
                 note='BinIO.v, Stack.v, StackGlue.v are hand-written. ' + TB_MODEL + AX_REALS),
+    'C07': dict(cat='proof', tech='Coq proof on a hand model of the byte format + correspondence + committed golden files', ref='DESIGN.md section 6, C07',
+                text='Theorems (BinIOPortable.v, FloatFacts.v): stacks that differ only in the interpolation method have the same writer and the same reader (interp_blind, any stack depth); a dump over array<t> loads into the same stack over array<t\'> with every scalar converted by static_cast and everything else unchanged (load_cross, stacks without an out-of-range-default layer); that conversion is exact when widening a finite float and is rounding to nearest-even when narrowing a double whose rounding is below 2^128 (Flocq binary_normalize_correct). Tie: all interpolator pairs and float/double pairs over 30 stack shapes are transferred through the real dump/load and compared with the model and with python\'s IEEE conversion on values aimed at ties, subnormals and the range end; 30 committed golden files covering every serialisable layer must load with their recorded contents, re-dump to the same bytes, and be accepted by the model reader.',
+                note='The golden files were written by the pinned revision plus the fix: commits (three layers could not be dumped or loaded at all before them; no fix changed a byte of the format). ' + TB_MODEL + AX_REALS),
     'C08': dict(cat='proof', tech='Coq proof on a hand model of the reader + complete fault enumeration against it', ref='DESIGN.md section 6, C08',
                 text='Theorems (BinIOProofs.v, BinIOFlip.v): the reader is a prefix-safe deterministic parser on every input it accepts (load_ok_reader), hence EVERY proper prefix of EVERY dump is rejected (prefix_rejected); altering any magic or tag word, or setting the width word to anything but 4/8, is rejected whatever follows (flip_rejected, over the segment view dump_segs proved equal to the dump). Tie: the fault-injecting correspondence loads every truncation point of every dump, sampled replacements at every tag/width position given by dump_segs, and every dump into every other stack type, in an assertion build and a -O2 -DNDEBUG build under ASan/UBSan; the outcome must be an exception wherever the model says Bad, and the same loaded field wherever it says Good.',
                 note='What is proved is rejection in the model; that the C++ reader throws (rather than aborts, hangs or reads indeterminate bytes) is observed at every enumerated fault, not proved. ' + TB_MODEL + AX_REALS),
